@@ -217,4 +217,12 @@ RECIPES = [
     ("C19", "neutral", [], D, "    else:\n        index = _find_closest_times(told, tnew)",
      "    elif len(tnew) == len(told) and np.array_equal(told, tnew):\n        index = np.arange(len(told))\n    else:\n        index = _find_closest_times(told, tnew)",
      "fixtime: one-to-one fast path established by an element-wise comparison of old and new times"),
+    ("C19", "neutral", [], D, "        index = _find_closest_times(told, tnew)", "        index = _find_closest_times(tnew=tnew, told=told)", "fixtime: search called with keywords in the other order"),
+    ("C19", "neutral", [], D, "        index = np.searchsorted(told, tnew) - 1\n        index[index < 0] = 0\n        return index", "        return np.clip(np.searchsorted(told, tnew) - 1, 0, None)",
+     "fixtime: previous-sample search clamped with np.clip"),
+    ("C19", "neutral", [], D, "        tnew += delt\n    return tnew, tp", "        tnew = tnew + delt\n    return tnew, tp", "fixtime: alignment shift by rebinding instead of in place"),
+    ("C19", "neutral", [], D, "        tnew += t1\n", "        tnew = tnew + t1\n", "fixtime: base shift by rebinding instead of in place"),
+    ("C19", "neutral", [], D, "    updata = signal.lfilter(fir, 1, updata1, axis=-1)\n    updata = updata[..., M:]\n", "    updata = signal.lfilter(fir, 1, updata1, axis=-1)[..., M:]\n",
+     "resample: filter call and lag removal chained"),
+    ("C19", "break", ["C19-R5"], D, "    newdata = olddata[index]\n", "    newdata = olddata[np.minimum(index + 1, len(told) - 1)]\n", "fixtime: the sample after the nearest one is returned"),
 ]
